@@ -201,6 +201,57 @@ def check_case(R, y, w, lam, do_exact=True, do_float=True, do_health=False):
         R.sample({"n": n, "lam": lam, "w": w[:12], "y": y[:12], "z_exact_first_as_float": float(zF[0])})
 
 
+def _mp_zeros(shape, dtype=None):
+    import mpmath
+
+    a = np.empty(shape, dtype=object)
+    a[...] = mpmath.mpf(0)
+    return a
+
+
+def check_long(R, y, w, lam):
+    """Long axes: the code object runs on 120-digit floats (mpmath) instead of Fractions - exact arithmetic is only
+    affordable while the algorithm *is* the exact elimination (anything else makes the fractions grow without bound) -
+    and the residual of the normal equations, assembled from the definition in the same arithmetic, must vanish to 80
+    digits; the compiled float64 result is then held to that solution."""
+    import mpmath
+
+    mpmath.mp.dps = 120
+    n = y.size
+    case = {"y": y, "w": w, "lam": lam, "arithmetic": "mpmath-120"}
+    R.evaluation()
+    R.case(nontrivial(n, w, lam), y, w, lam)
+    if "m" not in _FR:
+        _FR["m"] = shim.interp(ws2d_compiled(), zeros=_mp_zeros)
+    yM = np.array([mpmath.mpf(float(v)) for v in y], dtype=object)
+    wM = np.array([mpmath.mpf(float(v)) for v in w], dtype=object)
+    lM = mpmath.mpf(float(lam))
+    zM = list(_FR["m"](yM, lM, wM))
+    r = W.residual_exact(zM, list(yM), list(wM), lM)
+    scale = max(abs(a * b) for a, b in zip(wM, yM)) + 16 * lM * max(abs(v) for v in zM) + 1
+    worst = max(abs(v) for v in r) / scale
+    R.count("identity_checked_120_digits")
+    R.note_max("long_axis_worst_relative_residual_log10", float(mpmath.log10(worst)) if worst > 0 else -999.0)
+    if not (worst <= mpmath.mpf(10) ** -80):
+        i = max(range(n), key=lambda k: abs(r[k]))
+        R.violation("C01:identity", f"run of ws2d in 120-digit arithmetic is not the PLS solution: relative residual {float(worst):.3g} at row {i} (n={n}, lam={lam})", case)
+        return
+    if 1e-6 <= lam <= 1e8:
+        z = ws2d_compiled()(y.astype(float), float(lam), w.astype(float))
+        zs = np.array([float(v) for v in zM])
+        den = float(np.max(np.abs(zs)))
+        rel = float(np.max(np.abs(z - zs))) / den if den > 0 else float(np.max(np.abs(z - zs)))
+        R.count("float_checked")
+        if not np.all(np.isfinite(z)) or rel > 1e-6:
+            keps = W.cond2(n, w, lam) * 2.0 ** -53
+            if keps >= 1e-7 and np.all(np.isfinite(z)):
+                R.violation("C01:ill-conditioned", f"float64 rel. error {rel:.3g} > 1e-6 with kappa*eps = {keps:.3g} (n={n}, lam={lam:.4g}, positive weights={int(np.sum(w > 0))})", case)
+            else:
+                R.violation("C01:float64-error", f"float64 rel. error {rel:.3g} > 1e-6 although kappa*eps = {keps:.3g} < 1e-7 (n={n}, lam={lam:.4g})", case)
+        else:
+            R.note_max("max_rel_err_within_bound", rel)
+
+
 def plan(tier, seed):
     specs = []
     reps = 1 if tier == "quick" else 8
@@ -218,7 +269,7 @@ def plan(tier, seed):
                       "budget_s": 100 if tier == "quick" else 600})
     # long axes: anything gated on the length of the series, on long runs of equal weights or on a slowly converging recursion
     for i in range(8 if tier == "quick" else 32):
-        specs.append({"kind": "long", "sub": i, "cases": 2 if tier == "quick" else 12, "budget_s": 120 if tier == "quick" else 600})
+        specs.append({"kind": "long", "sub": i, "cases": 3 if tier == "quick" else 40, "budget_s": 100 if tier == "quick" else 600})
     return specs
 
 
@@ -253,7 +304,7 @@ def run_shard(spec, R):
                 R.count("stopped_on_budget")
                 break
             k = spec["sub"] * spec["cases"] + it
-            n = int([512, 520, 600, 777, 640, 800, 513, 700, 1000, 1440, 900, 1200][k % (8 if spec["tier"] == "quick" else 12)])
+            n = int([512, 600, 777, 1000, 1440, 2000, 3000, 900, 513, 1200, 2500, 4000][k % 12])
             wk = k % 4
             w = np.ones(n)
             if wk == 1:  # a few early gaps, then a long gap-free tail
@@ -264,9 +315,9 @@ def run_shard(spec, R):
                 w[rng.random(n) < 0.3] = 0
             y = gen_y(rng, n, YK[int(rng.integers(0, 3))])
             lam = [1e8, 1e7, 1e6, 3e7, float(10.0 ** rng.uniform(-6, 8)), 1e8, 1e2, 1e8][(k // 4) % 8]
-            check_case(R, y, w, lam, do_exact=True, do_float=True)
+            check_long(R, y, w, lam)
             R.count("long_axis_cases")
-            R.note_max("longest_axis_exact", n)
+            R.note_max("longest_axis_120_digits", n)
     elif spec["kind"] == "float":
         for it in range(spec["cases"]):
             if R.out_of_time():
